@@ -20,8 +20,11 @@ type c19Val struct {
 
 type c19Gen struct {
 	t      *rapid.T
-	labels map[string]bool
-	bind   int
+	labels    map[string]bool
+	bind      int
+	inPattern map[string]bool // names already bound in the pattern being built
+	extra     []string        // names beyond the pool
+	caseNames map[string]bool // every name bound by some alternative of the case being built
 }
 
 func (g *c19Gen) n(lo, hi int, l string) int { return rapid.IntRange(lo, hi).Draw(g.t, l) }
@@ -31,6 +34,8 @@ func (g *c19Gen) scalar() *c19Val {
 	l := rapid.SampledFrom([]*ast.Node{
 		ast.Num("0"), ast.Num("1"), ast.Num("2"), ast.Num("5"), ast.Str("a"), ast.Str("1"), ast.Str(""), ast.Str("2"),
 		ast.True(), ast.False(), ast.Null(), ast.Num("1.5"),
+		// strings whose literal needs an escape: the tab and the backslash-t text are different strings
+		ast.Str("a\\tb"), ast.Str("a\\\\tb"), ast.Str("\\n"), ast.Str("\\\\"),
 	}).Draw(g.t, "sval").Clone()
 	k := map[string]string{"num": "num", "str": "str", "true": "bool", "false": "bool", "null": "null"}[l.K]
 	return &c19Val{kind: k, lit: l}
@@ -56,9 +61,29 @@ func (g *c19Gen) subject(depth int) *c19Val {
 	return v
 }
 
+// binding names come from a small pool (alternatives of one case commonly
+// reuse a name, as in [1, x], [2, x] => x); within one pattern they are unique.
+// Every pool name is also a global assigned at the start of the rule, so that a
+// name NOT bound by the selected alternative reads as the outer value.
+var c19Pool = []string{"x", "y", "z", "w", "p", "q", "r9", "s9", "t9", "u9", "v9", "k9"}
+
 func (g *c19Gen) fresh() string {
+	for _, n := range c19Pool {
+		if !g.inPattern[n] && rapid.IntRange(0, 2).Draw(g.t, "takename") > 0 {
+			g.inPattern[n] = true
+			return n
+		}
+	}
+	for _, n := range c19Pool {
+		if !g.inPattern[n] {
+			g.inPattern[n] = true
+			return n
+		}
+	}
 	g.bind++
-	return fmt.Sprintf("b%d", g.bind)
+	n := fmt.Sprintf("b%d", g.bind)
+	g.extra = append(g.extra, n)
+	return n
 }
 
 // pattern builds a pattern aimed at v: matching it (hit) or not.
@@ -147,6 +172,35 @@ func (g *c19Gen) pattern(v *c19Val, hit bool, depth int, names *[]string) *ast.N
 }
 
 func (g *c19Gen) body(ci int, names []string, ctx string) *ast.Node {
+	// names bound by other alternatives of this case must read as the outer variables
+	var others []string
+	for _, n := range c19Pool {
+		if g.caseNames[n] {
+			bound := false
+			for _, b := range names {
+				if b == n {
+					bound = true
+				}
+			}
+			if !bound {
+				others = append(others, n)
+			}
+		}
+	}
+	if len(others) > 0 && g.n(0, 1, "readothers") == 0 {
+		g.labels["body-reads-name-of-other-alternative"] = true
+		items := []*ast.Node{ast.Str(fmt.Sprintf("o%d", ci))}
+		for _, nm := range names {
+			items = append(items, ast.Id(nm))
+		}
+		for _, nm := range others {
+			items = append(items, ast.Id(nm))
+		}
+		if g.n(0, 1, "othersblock") == 0 {
+			return ast.Block(ast.Print(items...))
+		}
+		return ast.Arr(items...)
+	}
 	if g.n(0, 2, "blockbody") == 0 {
 		args := []*ast.Node{ast.Str(fmt.Sprintf("C%d", ci))}
 		for _, nm := range names {
@@ -201,6 +255,7 @@ func (g *c19Gen) match(subj *ast.Node, v *c19Val, ctx string) *ast.Node {
 	var cases []*ast.Node
 	for ci := 0; ci < ncases; ci++ {
 		nalts := g.n(1, 3, "nalts")
+		g.caseNames = map[string]bool{}
 		hitAlt := -1
 		if ci == hitCase {
 			hitAlt = g.n(0, nalts-1, "hitalt")
@@ -209,6 +264,7 @@ func (g *c19Gen) match(subj *ast.Node, v *c19Val, ctx string) *ast.Node {
 		var names []string
 		for ai := 0; ai < nalts; ai++ {
 			var altNames []string
+			g.inPattern = map[string]bool{}
 			// after the selected alternative anything may follow: matching or not
 			hit := ai == hitAlt || (ci > hitCase && g.b("laterhit")) || (ci == hitCase && ai > hitAlt && g.b("laterhit2"))
 			p := g.pattern(v, hit, 2, &altNames)
@@ -218,6 +274,9 @@ func (g *c19Gen) match(subj *ast.Node, v *c19Val, ctx string) *ast.Node {
 				g.labels["poisoned-later-pattern"] = true
 			}
 			pats = append(pats, p)
+			for n := range g.inPattern {
+				g.caseNames[n] = true
+			}
 			if ai == hitAlt {
 				names = altNames
 			}
@@ -240,11 +299,14 @@ func (g *c19Gen) match(subj *ast.Node, v *c19Val, ctx string) *ast.Node {
 }
 
 func genC19(t *rapid.T) (*DCase, map[string]bool) {
-	g := &c19Gen{t: t, labels: map[string]bool{}}
+	g := &c19Gen{t: t, labels: map[string]bool{}, inPattern: map[string]bool{}, caseNames: map[string]bool{}}
 	set := func(n string, v *ast.Node) *ast.Node { return ast.ExprS(ast.Set(ast.Id(n), v)) }
 	var items []*ast.Node
 	var stmts []*ast.Node
 	stmts = append(stmts, set("glob", ast.Num("0")))
+	for _, n := range c19Pool {
+		stmts = append(stmts, set(n, ast.Str("outer-"+n)))
+	}
 	nm := g.n(1, 3, "nmatches")
 	fcount := 0
 	for k := 0; k < nm; k++ {
@@ -283,7 +345,7 @@ func genC19(t *rapid.T) (*DCase, map[string]bool) {
 		default:
 			stmts = append(stmts, set(r, g.match(subj, v, "rule")), ast.Print(ast.Str("R"), ast.Id(r)))
 		}
-		stmts = append(stmts, ast.Print(ast.Str("G"), ast.Id("glob")))
+		stmts = append(stmts, ast.Print(ast.Str("G"), ast.Id("glob"), ast.Id("x"), ast.Id("y"), ast.Id("z"), ast.Id("w")))
 	}
 	items = append(items, ast.Rule("pattern", nil, ast.Block(stmts...)))
 	items = append(items, ast.Rule("pattern", nil, ast.Block(ast.Print(ast.Str("second rule")))))
